@@ -18,6 +18,7 @@ use bio::data_structures::interval_tree::{ArrayBackedIntervalTree, IntervalTree}
 use bio_types::annot::contig::Contig;
 use bio_types::annot::loc::Loc;
 use bio_types::annot::pos::Pos;
+use bio::utils::Interval;
 use bio_types::strand::ReqStrand;
 use serde::{Deserialize, Serialize};
 use serde_json::{json, Value};
@@ -1799,6 +1800,190 @@ fn annot_replay(init: &Value, ops: &[Op], cc: &mut CaseCtx) {
     }
 }
 
+// ------------------------------------------------------ constructors: FromIterator, Interval::{new,from}
+
+/// how the items of the iterator name their interval: all three are `Into<Interval<i64>>`
+const VIAS: [&str; 3] = ["range", "range-ref", "interval"];
+
+fn tree_from_iter(ents: &[Ent], via: &str) -> Result<IntervalTree<i64, u32>, String> {
+    let ranges: Vec<std::ops::Range<i64>> = ents.iter().map(|e| e.0..e.1).collect();
+    guard(|| match via {
+        "range-ref" => IntervalTree::from_iter(ranges.iter().zip(ents.iter().map(|e| e.2))),
+        "interval" => ents.iter().map(|e| (Interval::new(e.0..e.1).expect("valid range"), e.2)).collect(),
+        _ => IntervalTree::from_iter(ents.iter().map(|e| (e.0..e.1, e.2))),
+    })
+}
+
+/// `IntervalTree::from_iter(items)` must be the tree that inserting the items one by one gives:
+/// equal as values (PartialEq over all fields), equal serde rendering, and the same case function
+/// (structure walk + every query through find / find_mut) holds on it.
+fn from_iter_check(ents: &[Ent], via: &str, queries: &[(i64, i64)], cc: &mut CaseCtx) {
+    let mut one_by_one: IntervalTree<i64, u32> = IntervalTree::new();
+    for &(a, b, d) in ents {
+        if let Err(msg) = guard(|| one_by_one.insert(a..b, d)) {
+            cc.violation("C07/avl/insert/panic", format!("insert({}..{}): {}", a, b, msg));
+            return;
+        }
+    }
+    let tree = match tree_from_iter(ents, via) {
+        Ok(t) => t,
+        Err(msg) => {
+            cc.outcome(&"panic");
+            cc.violation("C07/avl/from_iter/panic", format!("from_iter over {:?} (items as {}): {}", ents, via, msg));
+            return;
+        }
+    };
+    let mut model = ents.to_vec();
+    model.sort();
+    cc.set_nontrivial(ents.len() >= 3);
+    let (w_ref, _) = render_tree(&one_by_one);
+    let walked = render_tree(&tree);
+    if walked.0.key != w_ref.key || tree != one_by_one {
+        cc.violation(
+            "C07/avl/from_iter/differs-from-inserting",
+            format!("from_iter over {:?} (items as {}) renders as {}, inserting one by one as {}", ents, via, walked.0.key, w_ref.key),
+        );
+    }
+    match avl_structure(walked, &model, "avl/from_iter", cc) {
+        Some(r) => cc.outcome(&r.key),
+        None => {
+            cc.outcome(&"structure");
+            return;
+        }
+    }
+    for &(qa, qb) in queries {
+        let want = expected(&model, qa, qb);
+        match avl_find(&tree, qa, qb) {
+            Err(msg) => {
+                cc.violation("C07/avl/from_iter/find-panic", format!("find({}..{}): {}", qa, qb, msg));
+                return;
+            }
+            Ok(got) => {
+                if got != want {
+                    cc.violation(
+                        format!("C07/avl/from_iter/find-{}", symptom(&got, &want)),
+                        format!("tree from_iter over {:?}: find({}..{}) returned {:?}, overlapping entries are {:?}", ents, qa, qb, got, want),
+                    );
+                    return;
+                }
+            }
+        }
+    }
+}
+
+fn ctor_ents(digits: &[usize], dom: &[(i64, i64)]) -> Vec<Ent> {
+    // payload = position in the sequence, so that a changed insertion order shows
+    digits.iter().enumerate().map(|(i, &d)| (dom[d].0, dom[d].1, i as u32)).collect()
+}
+
+/// kind "interval": the three ways to make an `Interval` from the range a..b
+fn interval_check(a: i64, b: i64, cc: &mut CaseCtx) {
+    let valid = b >= a; // "Will return Err if end < start"
+    cc.set_nontrivial(!valid || a == b);
+    let newed = guard(|| Interval::new(a..b));
+    let from_val = guard(|| Interval::from(a..b));
+    let r = a..b;
+    let from_ref = guard(|| Interval::from(&r));
+    let into_val: Result<Interval<i64>, String> = guard(|| (a..b).into());
+    cc.outcome(&(valid, newed.as_ref().map(|x| x.is_ok()).ok(), from_val.is_ok(), from_ref.is_ok()));
+    match &newed {
+        Err(msg) => cc.violation("C07/interval/new/panic", format!("Interval::new({}..{}): {}", a, b, msg)),
+        Ok(Ok(iv)) => {
+            if !valid {
+                cc.violation("C07/interval/new/negative-width-accepted", format!("Interval::new({}..{}) = Ok({:?})", a, b, iv));
+            } else if **iv != (a..b) || iv.start != a || iv.end != b {
+                cc.violation("C07/interval/new/wrong-range", format!("Interval::new({}..{}) derefs to {:?}", a, b, **iv));
+            }
+        }
+        Ok(Err(e)) => {
+            if valid {
+                cc.violation("C07/interval/new/valid-range-refused", format!("Interval::new({}..{}) = Err({:?})", a, b, e));
+            } else if format!("{:?}", e) != "InvalidRange" {
+                cc.violation("C07/interval/new/wrong-error", format!("Interval::new({}..{}) = Err({:?}), expected InvalidRange", a, b, e));
+            }
+        }
+    }
+    for (entry, got) in [("from-range", &from_val), ("from-range-ref", &from_ref), ("range-into", &into_val)] {
+        match got {
+            Ok(iv) => {
+                if !valid {
+                    cc.violation(
+                        format!("C07/interval/{}/negative-width-no-panic", entry),
+                        format!("conversion of {}..{} returned {:?}; it is documented to panic", a, b, iv),
+                    );
+                } else if **iv != (a..b) {
+                    cc.violation(format!("C07/interval/{}/wrong-range", entry), format!("conversion of {}..{} derefs to {:?}", a, b, **iv));
+                } else if let Ok(Ok(n)) = &newed {
+                    if n != iv {
+                        cc.violation(format!("C07/interval/{}/differs-from-new", entry), format!("{:?} vs Interval::new: {:?}", iv, n));
+                    }
+                }
+            }
+            Err(msg) => {
+                if valid {
+                    cc.violation(format!("C07/interval/{}/valid-range-panic", entry), format!("conversion of {}..{}: {}", a, b, msg));
+                }
+            }
+        }
+    }
+}
+
+fn ctor_queries() -> Vec<(i64, i64)> {
+    domain_queries(0, 4)
+}
+
+fn ctor_family_queries(model_sorted: &[Ent]) -> Vec<(i64, i64)> {
+    let mut pts: Vec<i64> = vec![];
+    for e in model_sorted {
+        pts.extend([e.0 - 1, e.0, e.1 - 1, e.1]);
+    }
+    pts.sort();
+    pts.dedup();
+    pts.into_iter().map(|q| (q, q + 1)).collect()
+}
+
+fn constructors_unit(tier: Tier, ctx: &mut Ctx) {
+    // Interval::new / From<Range> / From<&Range> on every range with both ends in -3..=3
+    for a in -3i64..=3 {
+        for b in -3i64..=3 {
+            ctx.case(|| json!({"kind": "interval", "start": a, "end": b}), |cc| interval_check(a, b, cc));
+        }
+    }
+    // every sequence of up to L intervals inside [0,4], through each item type
+    let dom = domain_intervals(0, 4);
+    let queries = ctor_queries();
+    for len in 0..=tier.pick(4, 5) {
+        let radices = vec![dom.len(); len];
+        gen::odometer(&radices, |digits| {
+            if ctx.res.capped {
+                return;
+            }
+            for via in VIAS {
+                ctx.case(
+                    || json!({"kind": "from-iter", "seq": digits, "via": via}),
+                    |cc| from_iter_check(&ctor_ents(digits, &dom), via, &queries, cc),
+                );
+            }
+        });
+    }
+    // the long insertion families of the AVL K1 units, built by from_iter
+    for order in ORDERS {
+        for width in WIDTHS {
+            for n in [5usize, 16, 33, 64, 100] {
+                ctx.case(
+                    || json!({"kind": "from-iter-family", "order": order, "width": width, "n": n}),
+                    |cc| {
+                        let ents = family_entries(order, width, n);
+                        let mut m = ents.clone();
+                        m.sort();
+                        from_iter_check(&ents, VIAS[n % 3], &ctor_family_queries(&m), cc)
+                    },
+                );
+            }
+        }
+    }
+}
+
 // ------------------------------------------------------------------------------------------ Prop
 
 #[derive(Clone, Debug)]
@@ -1810,6 +1995,7 @@ enum Unit {
     Label(usize),
     Misc,
     Annot(usize),
+    Constructors,
 }
 
 /// heaviest first: the driver hands units out in this order
@@ -1838,6 +2024,7 @@ fn unit_list(tier: Tier) -> Vec<(String, Unit)> {
     for s in 0..FAMILY_SHARDS {
         v.push((format!("avl-families-{}", s), Unit::AvlFamily(s)));
     }
+    v.push(("constructors".to_string(), Unit::Constructors));
     v
 }
 
@@ -1849,7 +2036,7 @@ impl Prop for C07Prop {
         "model_checking"
     }
     fn rule(&self) -> &'static str {
-        "K2: breadth-first search over operation histories on the real object next to a Vec model (AVL tree: insert, and insert mixed with payload writes through find_mut; array-backed tree: insert/index; AnnotMap: insert_at/insert_loc on two references); states merged on the serde rendering of every field of the real object plus the model; every transition is one case (distinct (history) by construction) and is followed by the structural walk and by every query of the domain through find and find_mut (resp. find/find_into, or the refusal check while un-indexed). K1: prefix-closed insertion families (7 orders x 5 width patterns, every n) for the AVL tree; unit staircases with every choice of <=2 long members, all short/long labelings, and insert-after-index schedules for the array-backed tree. Non-trivial: AVL insert that triggered a rotation (new shape is not old shape plus one leaf), find_mut write that touches some but not all entries, AVL family with n>=3; array K2 transition after the tree had been indexed once; staircase with n>=16 and a long member; labeling with a long member; re-index schedule with >=16 entries; AnnotMap insert when both references are populated or the target tree has >=2 entries."
+        "K2: breadth-first search over operation histories on the real object next to a Vec model (AVL tree: insert, and insert mixed with payload writes through find_mut; array-backed tree: insert/index; AnnotMap: insert_at/insert_loc on two references); states merged on the serde rendering of every field of the real object plus the model; every transition is one case (distinct (history) by construction) and is followed by the structural walk and by every query of the domain through find and find_mut (resp. find/find_into, or the refusal check while un-indexed). K1: prefix-closed insertion families (7 orders x 5 width patterns, every n) for the AVL tree; unit staircases with every choice of <=2 long members, all short/long labelings, and insert-after-index schedules for the array-backed tree. Non-trivial: AVL insert that triggered a rotation (new shape is not old shape plus one leaf), find_mut write that touches some but not all entries, AVL family with n>=3; array K2 transition after the tree had been indexed once; staircase with n>=16 and a long member; labeling with a long member; re-index schedule with >=16 entries; AnnotMap insert when both references are populated or the target tree has >=2 entries. Unit constructors (K1): interval = one range a..b with both ends in -3..=3 through Interval::new (Err(InvalidRange) iff end < start, otherwise derefs to a..b), From<Range>, From<&Range> and Range::into (equal to new() on valid ranges, panic on negative width as documented); from-iter = one (sequence of up to 4|5 intervals inside [0,4], item type Range / &Range / Interval): IntervalTree::from_iter equals the tree obtained by inserting one by one (PartialEq and serde rendering), passes the structural walk and answers every domain query like the filter; from-iter-family = the same for the K1 insertion families at n in {5,16,33,64,100}; non-trivial: negative or zero width (interval), at least 3 entries (from-iter)."
     }
     fn assumptions(&self) -> Vec<&'static str> {
         vec![
@@ -1858,7 +2045,8 @@ impl Prop for C07Prop {
             "structural invariants (stored height, stored max, ordering) are checked as the mechanism behind the statement: a stale max that is too small loses results, a stale height breaks balancing later; 'max too large' costs time only and has its own key",
             "height clause: besides |h_left-h_right|<=1 at every node, n >= N(h) with N(h)=N(h-1)+N(h-2)+1 (equivalent to h <= 1.4405 log2(n+2)-0.33)",
             "un-indexed array-backed tree: any panic of find/find_into counts as refusal; a tree on which index() was never called counts as un-indexed even when empty",
-            "only positive-width intervals and queries are used; order of results is not compared",
+            "only positive-width intervals and queries are used in trees; order of results is not compared",
+            "Interval constructors: a zero-width range (start == end) is accepted (the documentation refuses only end < start); the error is recognised by its Debug rendering 'InvalidRange' because the error type's module is private; the panic message of the conversions is not compared",
             "AnnotMap payload is a wrapper around bio-types Contig implementing Loc (Contig itself is not Serialize in this build); locations and queries are plain Contigs",
         ]
     }
@@ -1874,6 +2062,7 @@ impl Prop for C07Prop {
             "array_staircase": {"n": format!("0..={}", tier.pick(64, 130)), "long_lengths": LONGS, "long_members": "none, every single position (orders asc/rev/stride), every pair of positions (asc)", "pair_lengths": pair_lengths(tier), "queries": "[q,q+1),[q,q+2) for q in -1..2n+2, plus 4 far/covering"},
             "array_labelings": {"n": label_sizes(tier), "long_lengths": LABEL_LONG, "labelings": "all 2^n"},
             "array_reindex": {"n1": format!("0..={}", tier.pick(28, 56)), "n2": format!("1..={}", tier.pick(28, 56)), "variants": "insert+index, from_iter"},
+            "constructors": {"interval_ends": "-3..=3 x -3..=3", "from_iter_seq_len": format!("0..={}", tier.pick(4, 5)), "from_iter_domain": "the 10 intervals inside [0,4]", "item_types": VIAS, "from_iter_families": "7 orders x 5 widths x n in {5,16,33,64,100}"},
             "annotmap_k2": {"refs": REFS, "unknown_ref": UNKNOWN_REF, "locations(start,len)": LOCS, "ops": "insert_loc, insert_at for every (ref, location)", "depth": tier.pick(4, 5)}
         })
     }
@@ -1893,6 +2082,7 @@ impl Prop for C07Prop {
                 reindex_unit(tier, ctx);
             }
             Some(Unit::Annot(s)) => annot_unit(s, tier, ctx),
+            Some(Unit::Constructors) => constructors_unit(tier, ctx),
             None => {}
         }
     }
@@ -1925,6 +2115,34 @@ impl Prop for C07Prop {
                 let mask = case["mask"].as_u64().unwrap_or(0) as u32;
                 let long = case["long"].as_i64().unwrap_or(5);
                 ctx.case(|| case.clone(), |cc| label_check(n, mask, long, cc));
+            }
+            "interval" => {
+                let a = case["start"].as_i64().unwrap_or(0);
+                let b = case["end"].as_i64().unwrap_or(0);
+                ctx.case(|| case.clone(), |cc| interval_check(a, b, cc));
+            }
+            "from-iter" => {
+                let dom = domain_intervals(0, 4);
+                let digits: Vec<usize> = serde_json::from_value(case["seq"].clone()).unwrap_or_default();
+                let via = VIAS.iter().find(|v| case["via"] == **v).copied().unwrap_or("range");
+                if digits.iter().any(|&d| d >= dom.len()) {
+                    return;
+                }
+                ctx.case(|| case.clone(), |cc| from_iter_check(&ctor_ents(&digits, &dom), via, &ctor_queries(), cc));
+            }
+            "from-iter-family" => {
+                let order = ORDERS.iter().find(|o| case["order"] == **o).copied().unwrap_or("asc");
+                let width = WIDTHS.iter().find(|o| case["width"] == **o).copied().unwrap_or("w1");
+                let n = case["n"].as_u64().unwrap_or(0) as usize;
+                ctx.case(
+                    || case.clone(),
+                    |cc| {
+                        let ents = family_entries(order, width, n);
+                        let mut m = ents.clone();
+                        m.sort();
+                        from_iter_check(&ents, VIAS[n % 3], &ctor_family_queries(&m), cc)
+                    },
+                );
             }
             "reindex" => {
                 let n1 = case["n1"].as_u64().unwrap_or(0) as usize;
